@@ -713,6 +713,141 @@ def hist_replay(res):
                               'first block, which is then exercised); the simulator is re-obtained with hw.getSimulator() for every clock edge',
             'outputs(value,nibbles)': [list(x) for x in res['outputs']], 'widths': res['widths'], 'log': res['log'][-8:]}
 
+
+# ------------------------------------------------------------------ several command channels in one system
+# One HWSystem holding 2-3 independent codecs, each in its own wrapper, every decoder named 'cmd_req' and every encoder
+# 'cmd_resp' (the names createHILUART uses; instance names are unique among siblings only).  The channels share the system
+# clock, or one derived clock domain, or have one derived domain each.  All channels run concurrently, each with its own
+# command list, producer gaps and consumer pacing, and each is judged by the same oracle as a single codec.
+MULTI_DOMAINS = ['sys', 'shared', 'own', 'mixed']
+MULTI_LAYOUTS = ['flat', 'board']            # wrappers directly under the HWSystem / under a common board Logic
+
+
+def multi_cases(rng, n):
+    out = []
+    for i in range(n):
+        out.append({'channels': 2 + (i % 2), 'domains': MULTI_DOMAINS[i % len(MULTI_DOMAINS)], 'layout': MULTI_LAYOUTS[(i // 2) % 2],
+                    'drv_wire': (i // 4) % 2 == 1, 'seed': rng.randint(0, 1 << 30)})
+    return out
+
+
+class _Channel:
+    def __init__(self, py4hw, H, box, idx, rng, pattern):
+        self.idx, self.rng = idx, rng
+        self.W = {'ready': 1, 'index_in': rng.choice([2, 3, 4]), 'v_in': rng.choice([8, 32]), 'index_out': 3, 'set_index_in': 1, 'set_v_in': 1,
+                  'set_index_out': 1, 'clk_pulse': 1, 'start_resp': 1}
+        wvin = rng.choice([16, 32])
+        w = {n: box.wire(n, dict(self.W, valid=1, c=8)[n]) for n in REQ_CTOR}
+        w.update(vin=box.wire('resp_v', wvin), size=box.wire('resp_size', 8), ser_ready=box.wire('ser_ready', 1),
+                 ser_valid=box.wire('ser_valid', 1), ser_v=box.wire('ser_v', 8))
+        self.w = w
+        self.dec = H.CMDRequest(box, 'cmd_req', *[w[n] for n in REQ_CTOR])
+        self.enc = H.CMDResponse(box, 'cmd_resp', w['vin'], w['size'], w['start_resp'], w['ser_ready'], w['ser_valid'], w['ser_v'])
+        self.outputs = [(rng.randint(0, (1 << wvin) - 1), rng.choice([1, 2, 4, 8, rng.randint(MIN_K, 10)])) for _ in range(8)]
+        self.cmds = []
+        for _ in range(rng.randint(3, 5)):
+            kind = rng.choice('IVKOO')
+            if kind == 'K': self.cmds.append(('K', [ord(ch) for ch in '%X' % rng.randint(0, 5)]))
+            elif kind == 'O': self.cmds.append(('O', [ord(ch) for ch in '%X' % rng.randint(0, 7)]))
+            else: self.cmds.append((kind, random_digits(rng, 6)))
+        self.cmds.append(('O', [ord('%X' % rng.randint(0, 7))]))
+        self.exp_events = [list(e) for e in py_expected(self.cmds, self.W)]
+        self.exp_rx = []
+        self.rdy = ready_source(tuple(pattern), rng, w['ser_valid'])
+        self.events, self.rx = [], []
+        self.todo = list(self.cmds)          # commands not yet started
+        self.chars, self.gap, self.need_rx, self.taken = [], 0, 0, False
+
+    def done(self):
+        return not self.todo and not self.chars and self.dec.state == 1 and self.enc.state == 0 and len(self.rx) >= self.need_rx
+
+    def pre(self):
+        w = self.w
+        r = self.rdy()
+        if w['ser_valid'].get() and r: self.rx.append(w['ser_v'].get())
+        w['ser_ready'].put(r)
+        if not self.chars and self.todo and self.dec.state == 1 and self.enc.state == 0 and len(self.rx) >= self.need_rx:
+            kind, arg = self.todo.pop(0)                     # next command once the channel is quiet
+            self.chars = encode([(kind, arg)]); self.gap = self.rng.choice([0, 1, 3])
+            if kind == 'O':
+                v, k = self.outputs[hexval(arg) % (1 << self.W['index_out'])]
+                self.exp_rx += py_response(v, k); self.need_rx = len(self.exp_rx)
+        self.taken = False
+        if self.chars and self.gap == 0:
+            w['valid'].put(1); w['c'].put(self.chars[0]); self.taken = w['ready'].get() == 1
+        else:
+            w['valid'].put(0); w['c'].put(self.rng.choice(SPECIAL + DIGITS))
+            if self.gap: self.gap -= 1
+
+    def post(self):
+        w = self.w
+        if self.taken:
+            self.chars.pop(0); self.gap = self.rng.choice([0, 0, 1, 2])
+        self.events += [list(e) for e in ev_of_row([w[n].get() for n in REQ_WIRES])]
+        if w['set_index_out'].get():
+            v, k = self.outputs[w['index_out'].get()]
+            w['vin'].put(v); w['size'].put(k)
+
+    def verdict(self):
+        name = 'channel %d (%s)' % (self.idx, cmds_text(self.cmds))
+        if self.events != self.exp_events: return '%s: decoded events %s, expected %s' % (name, self.events, self.exp_events)
+        if self.rx != self.exp_rx:
+            return '%s: responses %r, expected %r' % (name, ''.join(chr(x) for x in self.rx), ''.join(chr(x) for x in self.exp_rx))
+        if not self.done(): return '%s: did not finish its command list within the cycle budget' % name
+        return None
+
+
+def run_multi(py4hw, case):
+    Wire = wire_base(py4hw)
+    rng = random.Random(case['seed'])
+    try:
+        with quiet():
+            import py4hw.emulation.HILWrapperUART as H
+            hw = py4hw.HWSystem()
+            root = py4hw.Logic(hw, 'board') if case['layout'] == 'board' else hw
+            def derived(name):
+                en = hw.wire(name + '_en', 1); en.put(1)
+                return py4hw.ClockDriver(name, base=hw.clockDriver, enable=en, wire=hw.wire(name + '_net', 1) if case['drv_wire'] else None)
+            shared = derived('link_clk') if case['domains'] in ('shared', 'mixed') else None
+            chans = []
+            for i in range(case['channels']):
+                box = py4hw.Logic(root, 'ch%d' % i)
+                dom = case['domains']
+                if dom == 'shared' or (dom == 'mixed' and i > 0): box.clockDriver = shared
+                elif dom == 'own': box.clockDriver = derived('ch%d_clk' % i)
+                chans.append(_Channel(py4hw, H, box, i, random.Random(rng.randint(0, 1 << 30)), PACINGS[rng.randrange(len(PACINGS))]))
+        cycles = 0
+        cap = 400 + 250 * max(len(c.cmds) for c in chans)
+        while cycles < cap and not all(c.done() for c in chans):
+            for c in chans: c.pre()
+            with quiet():
+                hw.getSimulator().clk(1)
+            cycles += 1
+            for c in chans: c.post()
+        for _ in range(4):
+            for c in chans: c.pre()
+            with quiet():
+                hw.getSimulator().clk(1)
+            for c in chans: c.post()
+        bad = None
+        for c in chans:
+            bad = bad or c.verdict()
+        return {'case': case, 'bad': bad, 'cycles': cycles,
+                'channels': [{'stream': cmds_text(c.cmds), 'events': c.events, 'received': ''.join(chr(x) for x in c.rx),
+                              'expected_received': ''.join(chr(x) for x in c.exp_rx)} for c in chans]}
+    except Exception as ex:
+        del Wire.prepared[:]
+        return {'case': case, 'bad': 'the simulation raised %s: %s' % (type(ex).__name__, ex), 'cycles': 0, 'channels': []}
+
+
+def multi_replay(res):
+    return {'what': 'several command channels in one system: ' + res['bad'], 'block': 'CMDRequest+CMDResponse', 'kind_of_case': 'multi',
+            'case': res['case'],
+            'case_legend': 'channels: number of codecs, each in its own wrapper ch<i>, every decoder named cmd_req and every encoder cmd_resp; domains: sys = system clock, '
+                           'shared = one derived ClockDriver for all, own = one derived driver each, mixed = channel 0 on the system clock and the others shared '
+                           '(enables held at 1); layout: wrappers under the HWSystem or under a board Logic',
+            'channels': res['channels']}
+
 # ------------------------------------------------------------------ shrinking a failing case
 def shrink_request(py4hw, run):
     """smallest failing variant found: a single command of the stream, tight schedule, shorter digit string."""
@@ -781,6 +916,11 @@ def replay(py4hw, rp):
         bad = xf != exp or raised is not None
         print('verdict  :', 'differs' if bad else 'agrees with the specification now')
         return 1 if bad else 0
+    if rp.get('kind_of_case') == 'multi':
+        res = run_multi(py4hw, rp['case'])
+        for c in res['channels']: print(c)
+        print('verdict  :', res['bad'] or 'agrees with the specification now')
+        return 1 if res['bad'] else 0
     if rp.get('kind_of_case') == 'history':
         res = run_codec_history(py4hw, rp['history'])
         for e in res['log']: print(e)
